@@ -283,6 +283,18 @@ def run(ctx):
                         # a side file that exists but cannot be read as a file (a directory of that name): the file is listed without it
                         tree.mkdir(d + "/" + f + ".abstract")
                         tree.write(d + "/" + f + ".abstract/x", b"x\n")
+                if i % 4 == 2:
+                    # side files that are symbolic links to regular files kept elsewhere in the tree (a shared link file,
+                    # generated abstracts): they are read like the files they point to
+                    k_ = 0
+                    for rel in [d + "/" + lf_name] + [d + "/.cap/" + f for f in caps] + [d + "/" + f + ".abstract" for f in abstracts]:
+                        p_ = tree.path(rel)
+                        if os.path.isfile(p_) and not os.path.islink(p_):
+                            store = tree.path("/_store%d/side%d" % (i, k_))
+                            k_ += 1
+                            os.makedirs(os.path.dirname(store), exist_ok=True)
+                            os.rename(p_, store)
+                            os.symlink(os.path.relpath(store, os.path.dirname(p_)), p_)
                 # what the plain handler shows for each file (type, name) = the un-overridden entry
                 rp0 = pyg.request(reqs.build("gopher", d), cfg_plain)
                 plain = {e[2].split("/")[-1]: (e[0], e[1]) for e in parse_gopher(rp0.out) if e[0] != "i"}
